@@ -53,7 +53,7 @@ def gen_chunk(args):
   num, den, n0, length = args
   from ttconv.time_code import SmpteTimeCode
   rate = Fraction(num, den)
-  rec = {"kind": "lab", "n0": n0, "lab": [], "tf": [], "pa": [], "sep": [], "fs": [], "fm": [], "ff": [],
+  rec = {"kind": "lab", "n0": n0, "lab": [], "tf": [], "pa": [], "sep": [], "fs": [], "fm": [], "ff": [], "fb": [],
          "af": [], "ow": [], "on": [], "od": [], "wo": []}
   bad = []
   walk = SmpteTimeCode.from_frames(n0, rate)
@@ -88,6 +88,9 @@ def gen_chunk(args):
     mid = Fraction((2 * n + 1) * den, 2 * num)
     rec["fm"].append(pk(SmpteTimeCode.from_seconds(mid, rate), "from_seconds_mid", n))
     rec["ff"].append(pk(SmpteTimeCode.from_seconds(float(mid), rate), "from_seconds_float", n))
+    # the boundary itself given as a float, when a float holds it exactly (-1: it does not)
+    fbv = float(boundary)
+    rec["fb"].append(pk(SmpteTimeCode.from_seconds(fbv, rate), "from_seconds_float_boundary", n) if Fraction(fbv) == boundary else -1)
     before = walk.to_temporal_offset()           # the offset is read, the SAME object advanced, the offset read again
     walk.add_frames(1)
     rec["af"].append(pk(walk, "add_frames", n))
@@ -381,6 +384,12 @@ def run(ctx):
       wins = [(a, min(step, maxn - a)) for a in range(0, maxn, step)] + [(maxn, 200), (2 * maxn - 40, 120), (4 * maxn - 100, 300)]
     else:
       wins = windows(fps, drop, ctx.tier, ctx.rng, maxn)
+      if den != 1:
+        # boundaries that a float holds exactly (the frame count is a multiple of the odd part of the rate's numerator)
+        odd = num
+        while odd % 2 == 0:
+          odd //= 2
+        wins = wins + [(odd * ctx.rng.randrange(1, maxn // odd) - 1, 3) for _ in range(160)]
     for a, l in wins:
       # split long windows so they parallelise; chunks of one window stay contiguous records
       jobs.append((name, (num, den, a, l)))
@@ -409,6 +418,8 @@ def run(ctx):
     for rec in per_rate[name]:
       if rec["kind"] == "lab":
         frames_total += len(rec["lab"])
+        if den != 1:
+          ctx.counts["float_exact_boundaries_fractional_rates"] = ctx.counts.get("float_exact_boundaries_fractional_rates", 0) + sum(1 for v in rec["fb"] if v != -1)
         for kk in range(len(rec["lab"])):
           n = rec["n0"] + kk
           # near a label-minute boundary?
@@ -457,7 +468,7 @@ def run(ctx):
       elif rec["kind"] == "lab":
         kk = x - rec["n0"]
         if 0 <= kk < len(rec["lab"]):
-          case["observed"] = {k: rec[k][kk] for k in ("lab", "tf", "pa", "sep", "fs", "fm", "ff", "af", "ow", "on", "od")}
+          case["observed"] = {k: rec[k][kk] for k in ("lab", "tf", "pa", "sep", "fs", "fm", "ff", "fb", "af", "ow", "on", "od")}
       else:
         case["record"] = rec
       ctx.violation(clause, case, {"rate": name, "count": len(items), "first": x},
